@@ -643,7 +643,10 @@ def oracle(ctx, d):
     for rep in range(ctx.pick(120, 1200)):
         kind = ctx.rng.choice(["ScalarImage", "OpticalImage", "Image"])
         shape = (ctx.rng.randint(2, 7), ctx.rng.randint(2, 7))  # (TVD of skimage needs more than one row / column)
-        dt0, dt1 = ctx.rng.choice(wide), ctx.rng.choice(wide)
+        # float16 is left to dtype_tie / the stage-free block: the stock TVD restoration (skimage / scipy) rejects float16 input
+        # with TypeError('No matching signature found') - img_as(float) keeps float16 -, which is not a matter of this property
+        upd_dtypes = [t for t in wide if np.dtype(t) != np.float16]
+        dt0, dt1 = ctx.rng.choice(upd_dtypes), ctx.rng.choice(upd_dtypes)
         opt = ctx.rng.choice(OPTS)
         real, red = zero_stock_stages(ctx, d, kind)
         if kind == "Image":
